@@ -391,7 +391,7 @@ def main(argv=None):
         "traces_validated_against_impl": n_agreed,
         "corpus_cases": len(corpus),
         "samples": samples[:8],
-        "distribution": dict(tags.most_common(60)),
+        "distribution": dict(tags.most_common(400)),  # coverage tags of the newer generators (string forms, event kinds, positions) must stay visible
         "translator": tinfo,
         "broken": [b[0] + ": " + b[1] for b in broken],
         "known_findings_hit": list(known_hits.keys()),
